@@ -42,7 +42,7 @@ def run_job(job):
             import shutil
             shutil.rmtree(tmpd, ignore_errors=True)
     out = monitor.to_monitor(job['id'], cfg, trace, caller_pid=os.getpid(), ctxkeys=ctxkeys_for(cfg), tnames=rig.tnames)
-    out['meta'] = {'skipped': rig.skipped, 'defaulted': rig.defaulted, 'lines': rig.line_count,
+    out['meta'] = {'skipped': rig.skipped, 'defaulted': rig.defaulted, 'lines': rig.line_count, 'sites': rig.line_sites,
                    'ints': rig.ints_done, 'events': len(trace),
                    'ctor': sorted(set(rig.process_ctor_methods)), 'ctxm': sorted(set(m or '' for m in rig.ctx_methods))}
     if job.get('keep_raw'):
@@ -65,7 +65,15 @@ def run_sweep(job):
     ks = list(range(1, total + 1))
     want = job['sweep']
     if want != 'all' and len(ks) > want:
-        ks = sorted(rnd.sample(ks, want))
+        # every source line that the calling thread executes inside labtech gets an interrupt at its first and at its
+        # last execution; the rest of the budget is a random sample of the remaining boundaries
+        first_at, last_at = {}, {}
+        for k, site in enumerate(first_sites(first), 1):
+            first_at.setdefault(site, k)
+            last_at[site] = k
+        must = set(first_at.values()) | set(last_at.values())
+        rest = [k for k in ks if k not in must]
+        ks = sorted(must | set(rnd.sample(rest, min(len(rest), want))))
     out = []
     for k in ks:
         j = dict(base)
@@ -79,6 +87,10 @@ def run_sweep(job):
         r['job'] = j
         out.append(r)
     return out
+
+
+def first_sites(res):
+    return [tuple(x) for x in res['meta'].get('sites') or []]
 
 
 def _beh(b):
